@@ -872,7 +872,10 @@ class TaggedValueCls(Generic[T], Config[T]):
           'Unexpected __fn_or_cls__ in TaggedValueCls; found:'
           f'{self.__fn_or_cls__}'
       )
-    return self.__fn_or_cls__(tags=self.tags, *args, **kwargs)
+    # `tags` may also be present in `kwargs` (e.g. after materialize_defaults
+    # made its default explicit); the tags of the `value` argument always win.
+    kwargs['tags'] = self.tags
+    return self.__fn_or_cls__(*args, **kwargs)
 
 
 def _field_uses_default_factory(dataclass_type: Type[Any], field_name: str):
